@@ -136,7 +136,9 @@ func (l *LLC) SerializeTo(b gopacket.SerializeBuffer, opts gopacket.SerializeOpt
 	var igFlag, crFlag byte
 	var length int
 
-	if l.Control&0xFF00 != 0 {
+	// Only the U format (low two bits set) has a one-octet control field; the
+	// I and S formats are two octets even when the first one is zero.
+	if l.Control&0xFF00 != 0 || l.Control&0x3 != 0x3 {
 		length = 4
 	} else {
 		length = 3
